@@ -209,14 +209,18 @@ SRCTIE = {
     "Grenad.SrcTie.TBlockSrc": ("SrcBlockCursor", ["Block", "Block.payload", "Block.entry_at", "Block.index_offsets", "BlockCursor", "BlockCursor.current",
                                                    "BlockCursor.move_on_first", "BlockCursor.move_on_last", "BlockCursor.move_on_next", "BlockCursor.move_on_prev",
                                                    "BlockCursor.move_on_key_lower_than_or_equal_to", "BlockCursor.move_on_key_greater_than_or_equal_to"]),
+    "Grenad.SrcTie.IterNext": ("SrcIterNext", ["RangeIter", "RangeIter.next", "RevRangeIter", "RevRangeIter.next", "PrefixIter", "PrefixIter.next",
+                                                "move_on_last_prefix", "RevPrefixIter", "RevPrefixIter.next", "advance_key", "end_contains", "start_contains"]),
+    "Grenad.SrcTie.C04C05Src": ("SrcIterNext", ["RangeIter", "RangeIter.next", "RevRangeIter", "RevRangeIter.next", "PrefixIter", "PrefixIter.next",
+                                                 "move_on_last_prefix", "RevPrefixIter", "RevPrefixIter.next", "advance_key", "end_contains", "start_contains"]),
     "Grenad.SrcTie.Smoke": ("SrcBlockCursor,SrcBlockWriter", ["BlockCursor.move_on_next", "BlockCursor.move_on_prev", "BlockCursor.move_on_last",
                                                               "BlockCursor.move_on_key_lower_than_or_equal_to", "BlockCursor.move_on_key_greater_than_or_equal_to",
                                                               "BlockWriter.insert", "BlockWriter.finish"]),
     "Grenad.SrcTie.BlockWriter": ("SrcBlockWriter", ["BlockWriter", "BlockWriter.reset", "BlockWriter.current_size_estimate",
                                                      "BlockWriter.insert", "BlockWriter.finish", "varint_encode32"]),
 }
-for _p, _mods in {"C14": ["Varint", "Block", "C14Src"], "C13": ["Meta", "C13Src"], "C10": ["Meta", "C10Src"], "C09": ["Meta", "BlockWriter", "Varint", "C13Src"], "C04": ["IterRange"],
-                  "C05": ["IterPrefix", "C05Src"], "C18": ["BlockWriter", "C18Src"], "C15": ["BlockWriter", "WriterBuilder"], "C01": ["BlockWriter", "Varint", "Meta", "Block", "BlockCursor", "TBlockSrc"], "C02": ["BlockCursor", "Smoke", "TBlockSrc"]}.items():
+for _p, _mods in {"C14": ["Varint", "Block", "C14Src"], "C13": ["Meta", "C13Src"], "C10": ["Meta", "C10Src"], "C09": ["Meta", "BlockWriter", "Varint", "C13Src"], "C04": ["IterRange", "IterNext", "C04C05Src"],
+                  "C05": ["IterPrefix", "C05Src", "IterNext", "C04C05Src"], "C18": ["BlockWriter", "C18Src"], "C15": ["BlockWriter", "WriterBuilder"], "C01": ["BlockWriter", "Varint", "Meta", "Block", "BlockCursor", "TBlockSrc"], "C02": ["BlockCursor", "Smoke", "TBlockSrc"]}.items():
     PROPS[_p]["srctie"] = ["Grenad.SrcTie." + m for m in _mods]
 
 
